@@ -512,6 +512,16 @@ async def drive(scen, sched_seed, stop, recorder=None):
                 out.payloads += 1
 
         # ---- judgement: quiescence
+        if out.stopped is None:
+            # no stop by the consumer (complete run, or only a resolver / source failed): the world goes
+            # on, the resolvers that are still in flight answer (work the library settles in the background
+            # on a failure path is by design not cancelled but awaited)
+            for _ in range(200):
+                g = world.next_gate()
+                if g is None:
+                    break
+                world.release(g)
+                await _settle()
         await _settle(DRAIN)
         left = [t for t in asyncio.all_tasks(loop) if t is not me and not t.done()]
         if left:
@@ -566,6 +576,8 @@ def _schema():
 def run_scenario(scen, sched_seed, stop, recorder=None):
     """One run in a fresh event loop."""
     loop = asyncio.new_event_loop()
+    noise = []
+    loop.set_exception_handler(lambda _l, ctx: noise.append(str(ctx.get("message"))))
     try:
         with warnings.catch_warnings():
             warnings.simplefilter("ignore")
